@@ -49,7 +49,7 @@ class C18(Check):
     thorough_examples = 6000
     chunk = 750
     rule = (
-        "[drawn in addition since rounds 13-15: an application-configured default content type (posted as media type too); a status function consulting a table that changes between cases; a JSON-RPC aiohttp application mounted with add_subapp (own status function)] "
+        "[round 16: endpoint prefixes registered without a leading slash] [drawn in addition since rounds 13-15: an application-configured default content type (posted as media type too); a status function consulting a table that changes between cases; a JSON-RPC aiohttp application mounted with add_subapp (own status function)] "
         "cases: integration-independent request = media type {each documented request content type x parameter spellings (charset=utf-8 in "
         "several spellings, other parameters), case variants, 11 near misses (application/jsonx, x-json, text/json, vnd.api+json ...), unrelated "
         "types, header missing} x body {C01-C03 request documents: valid, invalid, batch, notification, non-JSON; four non-UTF-8 byte strings} x "
